@@ -2331,7 +2331,9 @@ class Ev:
                     # zipping the positions 0..len(c) (e.g. the places of an array as long as c) with c itself walks c
                     pos_of = lambda c_src: vkey(Sym("range", Poly.const(0).key(), Poly.atom(("len", len_base(vkey(c_src)), None)).key()))
                     zsrc = Sym("zip", vkey(recv.src), vkey(o.src))
-                    if vkey(recv.src) == pos_of(o.src) and not o.enumerated:
+                    if vkey(recv.src) == vkey(o.src):
+                        zsrc = recv.src          # two sequences derived element-wise from the same container walk it together
+                    elif vkey(recv.src) == pos_of(o.src) and not o.enumerated:
                         zsrc = o.src
                     elif vkey(o.src) == pos_of(recv.src) and not recv.enumerated:
                         zsrc = recv.src
